@@ -305,10 +305,67 @@ if req.get("probe_mp"):
     json.dump({"cases": [], "mp_ok": ok}, sys.stdout)
     sys.exit(0)
 
+def one_call(src, tgt, data, c):
+    """one resampling call of a history: neighbour info (k neighbours) and the nearest-neighbour result"""
+    signal.alarm(LIMIT)
+    try:
+        kw = dict(reduce_data=c["reduce"], segments=c["segments"], nprocs=1, epsilon=c.get("epsilon", 0))
+        info = kd_tree.get_neighbour_info(src, tgt, c["radius"], neighbours=c["k"], **kw)
+        res = kd_tree.resample_nearest(src, data, tgt, c["radius"], fill_value=c.get("fill", -1), **kw)
+        out = {"info": info_json(info), "nn": fl(res)}
+    except Exception as e:
+        out = err(e)
+    signal.alarm(0)
+    return out
+
+
+def isolated(fn):
+    """run fn in a forked child of THIS process as it is now (before any history call): a call without a past"""
+    import multiprocessing as mp
+    ctx = mp.get_context("fork")
+    rd, wr = ctx.Pipe(False)
+
+    def work():
+        try:
+            wr.send(fn())
+        except Exception as e:
+            wr.send(err(e))
+    p = ctx.Process(target=work)
+    p.start()
+    out = rd.recv() if rd.poll(4 * LIMIT) else {"error": "RunTimeout", "msg": "isolated call did not finish"}
+    p.join(5)
+    if p.is_alive():
+        p.terminate()
+    return out
+
+
+def run_histories(hists):
+    """Every call of every history first as an isolated first call (forked children, fresh objects), then the histories
+    themselves, one after the other in this process: same objects re-used or equal-content fresh objects, as requested."""
+    outs = []
+    prepared = []
+    for h in hists:
+        data = np.array(h["data"], dtype=np.float64)
+        iso = []
+        for c in h["calls"]:
+            iso.append(isolated(lambda c=c: one_call(mk_geo(h["source"]), mk_geo(h["target"]), data, c)))
+        prepared.append((h, data, iso))
+    for h, data, iso in prepared:
+        src, tgt = mk_geo(h["source"]), mk_geo(h["target"])
+        got = []
+        for c in h["calls"]:
+            if c.get("fresh"):
+                src, tgt = mk_geo(h["source"]), mk_geo(h["target"])
+            got.append(one_call(src, tgt, data, c))
+        outs.append({"id": h["id"], "isolated": iso, "history": got})
+    return outs
+
+
 res = []
+hres = run_histories(req.get("histories", []))
 for case in req["cases"]:
     try:
         res.append(run_case(case))
     except Exception as e:  # a crash of the driver logic itself is reported per case
         res.append({"id": case.get("id"), "driver_error": err(e)})
-json.dump({"cases": res}, sys.stdout)
+json.dump({"cases": res, "histories": hres}, sys.stdout)
